@@ -188,7 +188,14 @@ void *sim_mmap(void *addr, size_t len, int prot, int flags, int fd, off_t off) {
   if (envfail && toobig) m.stats["mmap_refused_too_big"]++;
   else if (envfail) m.stats["hugetlb_refused_by_env"]++;
   if (huge && !inj && !envfail) m.stats["hugetlb_granted"]++;
-  if (inj || envfail) { errno = ENOMEM; return MAP_FAILED; }
+  if (inj) {
+    // mmap(2) documents more than ENOMEM; which one an injected failure reports is a seeded environment choice
+    static const int codes[] = {ENOMEM, ENOMEM, ENOMEM, EAGAIN, EPERM, ENFILE, ENODEV, EOVERFLOW};
+    errno = codes[(m.env.fill_seed + (uint64_t)k * 7 + m.serial) % 8];
+    m.stats[std::string("fault_mmap_errno_") + std::to_string(errno)]++;
+    return MAP_FAILED;
+  }
+  if (envfail) { errno = ENOMEM; return MAP_FAILED; }
   int rflags = flags & ~(MAP_HUGETLB | (0x3f << MAP_HUGE_SHIFT));
   void *p = mmap(addr, len, prot, rflags, fd, off);
   if (p == MAP_FAILED) {
